@@ -528,3 +528,143 @@ def r8(ctx, R):
         if sh:
             R.check(not mu, f'{rel} :: attributes {sorted(sh)} hold cached (shared) objects and are only read', rel, 'no augmented assignment / element store on them', mu[:3])
     R.ok('implementations/problem_classes :: scan for attributes bound to cached builders', 'pySDC/implementations/problem_classes', found=f'{n} such attribute(s)')
+
+
+def _newton_sym(n, uname, local):
+    """AST -> sympy for Newton residual / Jacobian expressions: the iterate is ONE symbol u (element-wise view), A.dot(x) is A*x,
+    diags(x) / eye / Id are x / 1, the embedded vector (uext) is the iterate, rhs is a constant; single-assignment locals are
+    substituted"""
+    import sympy as sp
+    U = sp.Symbol('u')
+    if isinstance(n, ast.Constant) and isinstance(n.value, (int, float)) and not isinstance(n.value, bool):
+        return sp.nsimplify(n.value)
+    if isinstance(n, ast.Name):
+        if n.id == uname or n.id in ('uext',):
+            return U
+        if n.id in ('Id',):
+            return sp.Integer(1)
+        if n.id in local:
+            return _newton_sym(local[n.id], uname, {k: v for k, v in local.items() if k != n.id})
+        return sp.Symbol(n.id)
+    if isinstance(n, ast.Attribute):
+        if ast.unparse(n) in ('self.uext',):
+            return U
+        return sp.Symbol(ast.unparse(n))
+    if isinstance(n, ast.BinOp):
+        a, b = _newton_sym(n.left, uname, local), _newton_sym(n.right, uname, local)
+        t = type(n.op)
+        if t is ast.Add:
+            return a + b
+        if t is ast.Sub:
+            return a - b
+        if t is ast.Mult:
+            return a * b
+        if t is ast.Div:
+            return a / b
+        if t is ast.Pow:
+            return a ** b
+        raise _Unk(ast.unparse(n))
+    if isinstance(n, ast.UnaryOp) and isinstance(n.op, ast.USub):
+        return -_newton_sym(n.operand, uname, local)
+    if isinstance(n, ast.Subscript):
+        sl = ast.unparse(n.slice)
+        if sl in ('1:-1', ':'):
+            return _newton_sym(n.value, uname, local)
+        raise _Unk(ast.unparse(n))
+    if isinstance(n, ast.Call):
+        f = ast.unparse(n.func)
+        if isinstance(n.func, ast.Attribute) and n.func.attr in ('flatten', 'ravel', 'reshape', 'copy', 'tocsc', 'tocsr'):
+            return _newton_sym(n.func.value, uname, local)
+        if isinstance(n.func, ast.Attribute) and n.func.attr == 'dot' and len(n.args) == 1:
+            return _newton_sym(n.func.value, uname, local) * _newton_sym(n.args[0], uname, local)
+        if f.split('.')[-1] == 'diags' and n.args:
+            return _newton_sym(n.args[0], uname, local)
+        if f.split('.')[-1] in ('eye', 'identity'):
+            return sp.Integer(1)
+        if f.split('.')[-1] == 'sqrt' and len(n.args) == 1:
+            return sp.sqrt(_newton_sym(n.args[0], uname, local))
+        if f.split('.')[-1] in ('exp', 'sin', 'cos', 'tanh') and len(n.args) == 1:
+            return getattr(sp, f.split('.')[-1])(_newton_sym(n.args[0], uname, local))
+        raise _Unk(ast.unparse(n)[:40])
+    raise _Unk(ast.unparse(n)[:40])
+
+
+@rule('C12', 'C12.R10', 'Newton solves the equation it evaluates: inside a Newton loop the Jacobian `dg` is the derivative of the residual `g` with respect to the iterate (symbolic differentiation of the extracted expressions; operators are linear atoms, element-wise view) - a residual that lost a coefficient the Jacobian still has converges to the solution of another equation', floor=8)
+def r10(ctx, R):
+    import sympy as sp
+    repo = ctx.repo
+    n_dec = 0
+    for ci in _problems(repo):
+        for name, fn in ci.methods.items():
+            if not name.startswith('solve_system'):
+                continue
+            for loop in [l for l in ast.walk(fn) if isinstance(l, (ast.While, ast.For))]:
+                body = [s for s in ast.walk(loop) if isinstance(s, ast.Assign) and len(s.targets) == 1 and isinstance(s.targets[0], ast.Name)]
+                gs = [s for s in body if s.targets[0].id == 'g']
+                dgs = [s for s in body if s.targets[0].id == 'dg']
+                if len(gs) != 1 or len(dgs) != 1:
+                    continue
+                w = f'{ci.module.relpath}:{ci.name}.{name}'
+                c = f'{ci.name}.{name} :: dg = d(g)/d(iterate)'
+                # the iterate: the name that the Newton update rebinds / updates (`u -= ..`, `u = u - ..`)
+                upd = [s.target.id for s in ast.walk(loop) if isinstance(s, ast.AugAssign) and isinstance(s.target, ast.Name)] + [s.targets[0].id for s in body if isinstance(s.value, ast.BinOp) and isinstance(s.value.left, ast.Name) and s.value.left.id == s.targets[0].id]
+                upd = [x for x in upd if x not in ('n', 'res', 'it', 'k', 'niter', 'newton_iter')]
+                if not upd:
+                    R.note(c, w, 'not decided: the Newton update of the iterate was not recognised')
+                    continue
+                uname = upd[0]
+                counts = {}
+                for s in ast.walk(fn):
+                    if isinstance(s, ast.Assign) and len(s.targets) == 1 and isinstance(s.targets[0], ast.Name):
+                        counts[s.targets[0].id] = counts.get(s.targets[0].id, 0) + 1
+                local = {s.targets[0].id: s.value for s in ast.walk(fn) if isinstance(s, ast.Assign) and len(s.targets) == 1 and isinstance(s.targets[0], ast.Name) and counts[s.targets[0].id] == 1 and s.targets[0].id not in ('g', 'dg', uname)}
+                try:
+                    G = _newton_sym(gs[0].value, uname, local)
+                    DG = _newton_sym(dgs[0].value, uname, local)
+                except _Unk as e:
+                    R.note(c, w, f'not decided: outside the vocabulary of the symbolic differentiation ({str(e)[:50]})')
+                    continue
+                except RecursionError:
+                    R.note(c, w, 'not decided: cyclic local definitions')
+                    continue
+                R.fn(w)
+                n_dec += 1
+                d = sp.simplify(sp.expand(sp.diff(G, sp.Symbol('u')) - DG))
+                R.check(d == 0, c, w, f'dg = {sp.simplify(sp.diff(G, sp.Symbol("u")))}'[:160], f'dg - dg/du = {str(-d)[:140]}' if d != 0 else 'equal')
+    if n_dec < 8:
+        raise AnalysisError(f'C12.R10: only {n_dec} Newton loops decided')
+
+
+@rule('C12', 'C12.R9', 'eval_f and the solver of one class embed the inner points in the SAME boundary values: where both prepare a scratch attribute of self (uext[0], uext[-1], ..), the entries with a fixed index are computed by the same expressions (found and repaired F29 on the semi-implicit Allen-Cahn front)', floor=3)
+def r9(ctx, R):
+    from ..inline import facts as _facts
+    repo = ctx.repo
+    n = 0
+    for ci in _problems(repo):
+        meths = {nm: f for nm, f in ci.methods.items() if nm == 'eval_f' or nm.startswith('solve_system')}
+        if 'eval_f' not in meths or len(meths) < 2:
+            continue
+        prep = {}
+        for nm, f in meths.items():
+            d = {}
+            try:
+                fs = _facts(f)
+            except Exception:  # noqa: BLE001
+                continue
+            for x in fs:
+                if x[0] == 'store' and re.fullmatch(r'self\.\w+\[-?\d+\]', x[1]):
+                    d[x[1]] = x[2]
+            prep[nm] = d
+        for nm in prep:
+            if nm == 'eval_f':
+                continue
+            common = sorted(set(prep[nm]) & set(prep.get('eval_f', {})))
+            if not common:
+                continue
+            n += 1
+            w = f'{ci.module.relpath}:{ci.name}.{nm}'
+            R.fn(w)
+            diff = [f'{k}: eval_f `{prep["eval_f"][k][:60]}` vs {nm} `{prep[nm][k][:60]}`' for k in common if prep['eval_f'][k] != prep[nm][k]]
+            R.check(not diff, f'{ci.name}.{nm} :: fixed-index entries {common} of the scratch data are prepared as in eval_f', w, 'identical expressions (same boundary values at the same time)', diff)
+    if n < 3:
+        raise AnalysisError(f'C12.R9: only {n} eval_f / solver pairs with common scratch entries found')
